@@ -1,5 +1,6 @@
 import TFV.Properties.Select
 import TFV.Properties.Src.Bsearch
+import TFV.Properties.Src.Tournament
 #print axioms TFV.Select.C11_bsearch_eq_firstGe
 #print axioms TFV.Select.C11_bsearch_interval
 #print axioms TFV.Select.C11_weight_positive
@@ -20,3 +21,4 @@ import TFV.Properties.Src.Bsearch
 #print axioms TFV.SrcTie.C11_src_check_for_value
 #print axioms TFV.SrcTie.C11_src_argsort_k
 #print axioms TFV.SrcTie.C11_src_binary_search_first_ge
+#print axioms TFV.SrcTie.C11_src_tournament_selection
